@@ -77,6 +77,80 @@ def run_scenario_tlc(cfgs, mode):
         shutil.rmtree(wd, ignore_errors=True)
 
 
+def mip_scenarios(chk, tier, seed):
+    """portfolios with unit-commitment / storage booleans in the future stage (not expressible in EAOScenario, which builds on the LP asset
+    semantics): the defining bounds and the structure of the extended problem are checked on the implementation"""
+    import datetime as dt
+    A = eao.assets
+    S0 = dt.datetime(2021, 1, 4)
+    T = 6
+    cases = []
+    for stage, fut in itertools.product((2, 4), [([100., 0., 100., 0.], [0., 100., 0., 100.]), ([30., 60., 10., 80.], [80., 10., 60., 30.], [40., 40., 40., 40.])]):
+        cases.append((stage, fut))
+    for stage, fut in cases:
+        present = [50., 20., 70., 10.][:stage]
+        scen = [np.array(present + list(f)[:T - stage] + [50.] * max(0, T - stage - len(f))) for f in fut]
+        NS = len(scen)
+
+        def build(variant):
+            n = A.Node('n')
+            tg = A.Timegrid(S0, S0 + dt.timedelta(days=T), freq='d')
+            if variant == 'plant':
+                x = A.Plant(name='plant', nodes=[n], min_cap=8. / 24, max_cap=10. / 24, extra_costs=50., start_costs=20., min_runtime=24)
+            else:
+                x = A.Storage('sto', n, size=10., cap_in=5. / 24, cap_out=5. / 24, eff_in=0.8, no_simult_in_out=True)
+            pf = eao.portfolio.Portfolio([A.SimpleContract(name='market', nodes=n, price='p', min_cap=-20. / 24, max_cap=20. / 24), x])
+            return pf, tg
+        for variant in ('plant', 'storage_bool'):
+            sel = dict(check='slp_mip', variant=variant, stage=stage, scenarios=NS)
+            chk.cnt['eval_mip_scenarios'] += 1
+            try:
+                ws, sols, ops = [], [], []
+                for k in range(NS):
+                    pf, tg = build(variant)
+                    with quiet():
+                        op = pf.setup_optim_problem({'p': scen[k]}, tg)
+                    ops.append(op)
+                    st, v, x = Problem(op).solve()
+                    ws.append(v)
+                    sols.append(x)
+                pf, tg = build(variant)
+                with quiet():
+                    op0 = pf.setup_optim_problem({'p': scen[0]}, tg)
+                    n0 = len(op0.c)
+                    f0 = op0.mapping[~op0.mapping.index.duplicated(keep='first')]
+                    n_present = int((f0['time_step'] < stage).sum())
+                    ext = eao.stoch_lin_prog.make_slp(op0, pf, tg, S0 + dt.timedelta(days=stage), [{'p': scen[k]} for k in range(1, NS)])
+                    st, v, x = Problem(ext).solve()
+            except Exception as e:
+                chk.violation(dict(sel, check='pipeline_raises', error=type(e).__name__), 'SLP pipeline with booleans raised %s: %s' % (type(e).__name__, str(e)[:120]), dict(variant=variant))
+                continue
+            if st != 'optimal' or any(w is None for w in ws):
+                chk.cnt['mip_scenario_infeasible'] += 1
+                continue
+            tol = 1e-6 * max(1, abs(v))
+            if len(ext.c) != n_present + NS * (n0 - n_present):
+                chk.violation(dict(sel, check='present_shared'), 'extended problem has %d variables, expected %d present + %d x %d future' % (len(ext.c), n_present, NS, n0 - n_present), dict(variant=variant))
+            if v > sum(ws) / NS + tol:
+                chk.violation(dict(sel, check='slp_le_ws'), 'SLP value %.9g exceeds the mean of the per-scenario optima %.9g' % (v, sum(ws) / NS), dict(variant=variant))
+            mask = np.zeros(T, bool)
+            mask[:stage] = True
+            for k in range(NS):
+                vals = []
+                for k2 in range(NS):
+                    pf2, tg2 = build(variant)
+                    with quiet():
+                        opf = pf2.setup_optim_problem({'p': scen[k2]}, tg2, fix_time_window={'I': mask.copy(), 'x': sols[k].copy()})
+                    vals.append(Problem(opf).solve()[1])
+                if any(q is None for q in vals):
+                    continue
+                eev = sum(vals) / NS
+                chk.cnt['eval_eev_mip'] += 1
+                if eev > v + tol:
+                    chk.violation(dict(sel, check='eev_le_slp'), 'expected value %.9g of fixing the present to the solution of scenario %d exceeds the SLP value %.9g' % (eev, k, v), dict(variant=variant))
+            chk.nontrivial(('mip_scen', variant, stage, NS))
+
+
 def with_prices(c, k):
     """deterministic configuration under scenario k"""
     d = copy.deepcopy(c)
@@ -231,6 +305,7 @@ def run(tier, seed):
         chk.nontrivial(('scen', c['id']))
         chk.sample(dict(kind='scenario configuration with model and implementation values', cfg_id=c['id'], variant=c['variant'], stage=c['stage'], scenarios=c['scen'],
                         model_slp=slp_lat, impl_slp=v, per_scenario_optima=ws, robust_worst_case=worst, model_robust=rob_lat), limit=3)
+    mip_scenarios(chk, tier, seed)
     chk.traces = 0
     chk.assumptions += ['scenarios share the present prices (hypothesis of the property)', 'SLP equality with the model only where the returned x is on the lattice']
     return chk.finish(rule='scenario sets (2 and 3 scenarios, coinciding scenarios) x boundary position (after the first step / before the last step) x portfolios with '
